@@ -187,6 +187,11 @@ func (p *Parser) validateRecoverRequest(req *model.RecoverRequest) error {
 		return errors.New("missing did suffix")
 	}
 
+	// the batch file reader refuses longer suffixes: whatever is accepted here must be readable from the batch files
+	if len(req.DidSuffix) > int(p.MaxOperationHashLength) {
+		return fmt.Errorf("did suffix length[%d] exceeds maximum hash length[%d]", len(req.DidSuffix), p.MaxOperationHashLength)
+	}
+
 	if req.SignedData == "" {
 		return errors.New("missing signed data")
 	}
